@@ -418,7 +418,7 @@ MANIFEST = {
             'under the PyTorch attribute names of the layer type, precisions come from the '
             'quantizer the coefficient belongs to; the weighting loop multiplies theta_in[i] * '
             'theta_w[j] * cost_fn(spec[i,j]). The numeric identity with sum(weights x bits) is '
-            'not computed.',
+            'not computed. A non-shared metric charges every call site with its own shapes (no contribution read back from a memo another iteration filled).',
     'note': 'Trusted: attribute names of nn.Conv1d/Conv2d/Linear/Module read from torch source; '
             'key reads are collected syntactically and through helper calls that receive the '
             'same spec object.',
